@@ -209,7 +209,11 @@ def reserve_pair(eng, res, rule="R-RESERVE-PAIR"):
         test_nodes = [cfg.node_of(getattr(t, "_parent")) for t, _ in rc]
         tn = test_nodes[0] if test_nodes else rn
         post = cfg.must_follow(dn, tn)
-        loopfree = not cfg.in_loop(rn)
+        # the restore is not repeated: it sits in no loop that does not also contain the removal (when the finalisation was
+        # merged into the growth loop, both are executed once per growth step)
+        l_restore = {id(x) for x in cfg.enclosing_loops(R)}
+        l_remove = {id(x) for x in cfg.enclosing_loops(D)}
+        loopfree = (not cfg.in_loop(rn)) or l_restore <= l_remove
         tgt_ok = isinstance(R.func.value, ast.Attribute) and R.func.value.attr == "bond_descriptors"
         bd = eng.prog.cls("BondDescriptor")
         truthy = not any(eng.prog.lookup_method(bd, m) for m in ("__bool__", "__len__"))
@@ -230,7 +234,10 @@ def reserve_pair(eng, res, rule="R-RESERVE-PAIR"):
                             bad.append(src(d.stmt)[:50])
                 if bad:
                     ok, why = False, f"the molecule variable is re-bound to something else between removal and restore: {bad}"
-    res.ob(rule, fin, "restore-on-every-path", "the reserved descriptor is re-appended to the same open list on every path from the removal to the return", apps[0] if apps else fin.node, ok, why)
+    # merged into the growth loop the molecule variable has definitions of the growth step as well: the pairing can no longer be
+    # told apart from growth by this rule (cannot speak); as a closure / method of its own it is decided
+    res.ob(rule, fin, "restore-on-every-path", "the reserved descriptor is re-appended to the same open list on every path from the removal to the return", apps[0] if apps else fin.node, ok, why,
+           soft=True if (not ok and cfg.enclosing_loops(D)) else None)
     # capping loop
     loops = [n for n in own_nodes(fin.node) if isinstance(n, ast.While)]
     ok = len(loops) == 1
@@ -261,7 +268,9 @@ def reserve_pair(eng, res, rule="R-RESERVE-PAIR"):
     res.ob(rule, fin, "capping-loop", "capping runs while the open list is non-empty and every iteration attaches one end group", loops[0] if loops else fin.node, ok, why)
     rets = [r for r in own_nodes(fin.node) if isinstance(r, ast.Return) and r.value is not None]
     mv = dt.value.value.id if isinstance(dt.value.value, ast.Name) else None
-    res.ob(rule, fin, "returns-capped", "the finalisation returns the capped molecule", fin.node, bool(rets) and all(isinstance(r.value, ast.Name) and r.value.id == mv for r in rets))
+    merged = bool(cfg.enclosing_loops(D))  # the finalisation was merged into the growth loop: there is no return of its own
+    res.ob(rule, fin, "returns-capped", "the finalisation returns the capped molecule", fin.node, bool(rets) and all(isinstance(r.value, ast.Name) and r.value.id == mv for r in rets),
+           "the finalisation is part of a larger function: what it hands on is decided by R-FRESH-RESULT / R-DO-WHILE" if merged else "", soft=True if merged else None)
 
 
 def handover_weight(eng, res, rule="R-HANDOVER-WEIGHT"):
